@@ -7,7 +7,9 @@ import vlib, progs
 from vlib import Check, MachineryError
 
 PROP = "C04"
-CONFIGS = [("plain", False, "call"), ("plain", True, "inline"), ("noinline", False, "noinline-lib")]
+# (library variant, calls rendered as `inline`, main defined before its callees, name)
+CONFIGS = [("plain", False, False, "call"), ("plain", True, False, "inline"), ("plain", True, True, "inline-main-first"),
+           ("noinline", False, False, "noinline-lib")]
 
 
 def run(tier, cases=None):
@@ -20,15 +22,15 @@ def run(tier, cases=None):
         ck.setc("states", len(cases)); ck.setc("transitions", len(cases))
     st = collections.Counter(c["status"] for c in cases)
     nexec = 0
-    for variant, inl, name in CONFIGS:
-        obs, texts = progs.run_cases(cases, ["interp"], variant=variant, inline_calls=inl)
+    for variant, inl, mfirst, name in CONFIGS:
+        obs, texts = progs.run_cases(cases, ["interp"], variant=variant, inline_calls=inl, main_first=mfirst)
         for i, per in sorted(obs.items()):
             c = cases[i]
             so, nans = progs.spec_obs(c)
             nexec += 1
             msg = progs.compare_obs(so, per["interp"], nans, "spec", "interp[%s]" % name)
             if msg:
-                again, _ = progs.run_cases([c], ["interp"], variant=variant, inline_calls=inl)
+                again, _ = progs.run_cases([c], ["interp"], variant=variant, inline_calls=inl, main_first=mfirst)
                 msg = progs.compare_obs(so, again[0]["interp"], nans, "spec", "interp[%s]" % name)
             if msg:
                 # is it the link-time transformation?  the same program without inlining agrees => attribute to inlining
@@ -45,7 +47,7 @@ def run(tier, cases=None):
     ck.setc("discarded_undefined", len(cases) - st.get("done", 0))
     ck.setc("call_sites_by_callee", {str(k): v for k, v in calls.items()})
     ck.setc("traces_validated_against_impl", nexec)
-    ck.setc("configs", [c[2] for c in CONFIGS])
+    ck.setc("configs", [c[3] for c in CONFIGS])
     ck.setc("rule", "behaviours of MIRProg.tla biased to calls/alloca/branches (MIRProg_c04.cfg); each well-defined program is linked and "
                     "interpreted as written, with all helper calls as `inline`, and in a library with inlining thresholds 0; "
                     "observations (result, caller-owned memory, external-call log) must equal the specification's")
